@@ -399,3 +399,127 @@ func (c *Ctx) renamedLocal(fn *ssa.Function, name string) *ssa.Alloc {
 	}
 	return nil
 }
+
+// vtask: one verification task -- a function body checked against a contract. For a contract attached to a
+// function-typed struct field (pkg.Type.field) there is one task per function that the repository stores in
+// that field: the body of the stored function is verified against the field's contract (receiver dropped), so
+// the contract used at calls through the field is no longer an assumption for those functions.
+type vtask struct {
+	key    string
+	fn     *ssa.Function
+	fc     *FuncContract
+	nameAs string
+	skip   string
+	notes  []string
+}
+
+// fieldOfKey resolves "pkg.Type.field" to a struct field of function type.
+func (c *Ctx) fieldOfKey(key string) (*types.Named, int) {
+	parts := strings.Split(key, ".")
+	if len(parts) != 3 {
+		return nil, -1
+	}
+	p := c.byName[parts[0]]
+	if p == nil {
+		return nil, -1
+	}
+	t := p.Type(parts[1])
+	if t == nil {
+		return nil, -1
+	}
+	n, ok := t.Type().(*types.Named)
+	if !ok {
+		return nil, -1
+	}
+	st, ok := n.Underlying().(*types.Struct)
+	if !ok {
+		return nil, -1
+	}
+	for i := 0; i < st.NumFields(); i++ {
+		if st.Field(i).Name() == parts[2] {
+			if _, isSig := st.Field(i).Type().Underlying().(*types.Signature); isSig {
+				return n, i
+			}
+		}
+	}
+	return nil, -1
+}
+
+func (c *Ctx) expandKey(key string, fc *FuncContract) []vtask {
+	if fn := c.findFunc(key); fn != nil {
+		return []vtask{{key: key, fn: fn, fc: fc}}
+	}
+	n, fi := c.fieldOfKey(key)
+	if n == nil || fc == nil {
+		return []vtask{{key: key, skip: "contract-binding: function " + key + " not found in the source"}}
+	}
+	seen := map[*ssa.Function]bool{}
+	var stored []*ssa.Function
+	unknown := 0
+	var fns []*ssa.Function
+	for fn := range ssautil.AllFunctions(c.prog) {
+		if isRepoFunc(fn) && fn.Blocks != nil {
+			fns = append(fns, fn)
+		}
+	}
+	sort.Slice(fns, func(i, j int) bool { return fns[i].String() < fns[j].String() })
+	for _, fn := range fns {
+		for _, b := range fn.Blocks {
+			for _, in := range b.Instrs {
+				st, ok := in.(*ssa.Store)
+				if !ok {
+					continue
+				}
+				fa, ok := st.Addr.(*ssa.FieldAddr)
+				if !ok || fa.Field != fi || namedOf(fa.X.Type()) == nil || namedOf(fa.X.Type()).Obj() != n.Obj() {
+					continue
+				}
+				v := st.Val
+				for {
+					if ct, ok := v.(*ssa.ChangeType); ok {
+						v = ct.X
+						continue
+					}
+					break
+				}
+				switch x := v.(type) {
+				case *ssa.Function:
+					if !seen[x] {
+						seen[x] = true
+						stored = append(stored, x)
+					}
+				case *ssa.MakeClosure:
+					if f, ok := x.Fn.(*ssa.Function); ok && len(x.Bindings) == 0 && !seen[f] {
+						seen[f] = true
+						stored = append(stored, f)
+					} else if !ok || len(x.Bindings) > 0 {
+						unknown++
+					}
+				default:
+					unknown++
+				}
+			}
+		}
+	}
+	if len(stored) == 0 {
+		return []vtask{{key: key, skip: "contract-binding: no function constant is stored in field " + key}}
+	}
+	var out []vtask
+	for _, f := range stored {
+		d := *fc
+		if len(d.Params) > 0 && d.Recv != "" {
+			d.Params = d.Params[1:]
+		}
+		d.Recv = ""
+		d.RecvPtr = false
+		t := vtask{key: key, fn: f, fc: &d, nameAs: key + "<-" + funcKey(f)}
+		if f.Blocks == nil || !isRepoFunc(f) {
+			t.skip = "contract-binding: " + funcKey(f) + " stored in field " + key + " has no body in the repository"
+		}
+		if unknown > 0 {
+			t.notes = append(t.notes, fmt.Sprintf("%d store(s) into %s of a value that is not a function constant: assumed to satisfy the field's contract", unknown, key))
+		}
+		out = append(out, t)
+	}
+	return out
+}
